@@ -270,3 +270,79 @@ func zzC06Final(r *Router[*hnd], w1, w2 int) bool {
 	}
 	return rec(zzC06State{g: []string{"GET"}}, 0, 0)
 }
+
+// ZZC06RR(n): two readers at the same time, optionally next to a writer that does not touch what
+// they read. n = writer*100 + reader1*10 + reader2; writer 0 = none, 1 = a registration that splits
+// /t/au's node, 2 = the toggle of /g. Readers: 0 GET /t/au, 1 GET /t/7/k, 2 Routes(), 3 strict URL
+// of /t/{x}/k, 4 strict URL of /t/au, 5 non-strict URL of a pattern never seen before, 6 non-strict
+// URL of another such pattern, 7 strict URL of /u/{n:digit} (runs an interceptor in mid-build).
+func ZZC06RR(n int) {
+	r := zzNewRouter("r", WithLock(true))
+	r.Handle("/t/au", &hnd{id: 1}, nil, "GET")
+	r.Handle("/t/{x}/k", &hnd{id: 2}, nil, "GET")
+	r.Handle("/g", &hnd{id: 3}, nil, "GET")
+	r.Handle("/u/{n:digit}", &hnd{id: 4}, nil, "GET")
+	var outs [2]zzC06Out
+	var errs [2]bool
+	reader := func(k int, slot int) func() {
+		return func() {
+			out := &outs[slot]
+			switch k {
+			case 0:
+				out.o = zzServePriv(r, "GET", "/t/au")
+			case 1:
+				out.o = zzServePriv(r, "GET", "/t/7/k")
+			case 2:
+				out.routes = r.Routes()
+			case 3:
+				u, err := r.URL(true, "/t/{x}/k", map[string]string{"x": "1"})
+				out.url, errs[slot] = u, err != nil
+			case 4:
+				u, err := r.URL(true, "/t/au", nil)
+				out.url, errs[slot] = u, err != nil
+			case 5:
+				u, err := r.URL(false, "/n1/{y}", map[string]string{"y": "2"})
+				out.url, errs[slot] = u, err != nil
+			case 6:
+				u, err := r.URL(false, "/n2/{z}/e", map[string]string{"z": "3"})
+				out.url, errs[slot] = u, err != nil
+			case 7:
+				u, err := r.URL(true, "/u/{n:digit}", map[string]string{"n": "5"})
+				out.url, errs[slot] = u, err != nil
+			}
+		}
+	}
+	r1, r2 := n/10%10, n%10
+	switch n / 100 {
+	case 0:
+		zzv.Par(reader(r1, 0), reader(r2, 1))
+	case 1:
+		zzv.Par(func() { r.Handle("/t/ab", &hnd{id: 10}, nil, "GET") }, reader(r1, 0), reader(r2, 1))
+	default:
+		zzv.Par(func() { r.Remove("/g", "GET"); r.Handle("/g", &hnd{id: 12}, nil, "GET") }, reader(r1, 0), reader(r2, 1))
+	}
+	zzv.Cover("two-readers")
+	for slot, k := range []int{r1, r2} {
+		out := &outs[slot]
+		switch k {
+		case 0:
+			zzv.Assert(out.o.id == 1 && out.o.nparams == 0, "readers:untouched-route-not-served-by-its-own-handler")
+		case 1:
+			zzv.Assert(out.o.id == 2 && out.o.px == "7" && out.o.nparams == 1, "readers:wrong-handler-or-parameters")
+		case 2:
+			_, a := out.routes["/t/au"]
+			_, b := out.routes["/t/{x}/k"]
+			zzv.Assert(a && b, "readers:Routes()-misses-an-untouched-route")
+		case 3:
+			zzv.Assert(!errs[slot] && out.url == "/t/1/k", "readers:strict-URL-of-an-untouched-route")
+		case 4:
+			zzv.Assert(!errs[slot] && out.url == "/t/au", "readers:strict-URL-of-an-untouched-route")
+		case 5:
+			zzv.Assert(!errs[slot] && out.url == "/n1/2", "readers:non-strict-URL")
+		case 6:
+			zzv.Assert(!errs[slot] && out.url == "/n2/3/e", "readers:non-strict-URL")
+		case 7:
+			zzv.Assert(!errs[slot] && out.url == "/u/5", "readers:strict-URL-of-an-untouched-route")
+		}
+	}
+}
